@@ -39,22 +39,22 @@ P = {
    text="Every generated build (C01's space incl. files needing 2-3 byte deltas and one file beyond 16 MiB with 4-byte deltas) is parsed by an independent decoder that checks header, footer, node layouts, in-bounds earlier targets, exact tiling of the body by node extents, index tables, and decodes the map without the crate's reader, comparing with the model.",
    note="Trusted: the harness decoder (cross-validated: must decode every golden file and every pinned build) and the frozen 256-entry input-rank table.", ref="5/C09, App. A"),
  "C10": dict(level="exploration", tech="independent reference encoder (v1/v2/v3) + golden files + header sweep; query suite against the model",
-   text="Maps from the shared space are encoded by an independent encoder in versions 1, 2 and 3 under several writer policies, opened through Vec, &[u8], Box, Arc, Cow and Mmap containers and queried (stream, get, range, search, set operations, len, verify) against the model; a sweep over version values x lengths 0..40 checks the documented error for each input; old-version files of 70 KiB..600 KiB (incl. 40/100/200-way nodes) get stream, sampled lookups, sampled ranges and - where values increase with the keys - get_key/get_key_into.",
+   text="Maps from the shared space are encoded by an independent encoder in versions 1, 2 and 3 under several writer policies, opened through Vec, &[u8], Box, Arc, Cow and Mmap containers and queried (stream, get, range, search, set operations, len, verify) against the model; a sweep over 16 version values (incl. ones whose low byte or low 32 bits look supported) x lengths 0..40 and a second one over supported versions x lengths 24..44 x root-address / key-count field values check the documented error for each input, opened directly and through Fst/Map/Set::map_data; old-version files of 70 KiB..600 KiB (incl. 40/100/200-way nodes) get stream, sampled lookups, sampled ranges and - where values increase with the keys - get_key/get_key_into.",
    note="Trusted: the reference encoder (v1/v2 differ from its cross-validated v3 mode only by index/checksum); no historical crate release is available offline.", ref="5/C10, App. B"),
  "C11": dict(level="fault_enumeration", tech="exhaustive single-fault injection at every write call and the flush x 7 failure kinds, under catch_unwind",
    text="For each explored key sequence and each of five routes (raw builder + finish, MapBuilder/SetBuilder + finish, the same + into_inner, extend_iter + into_inner, extend_stream + finish) the number of write calls W is measured, then every call index 0..W and the final flush is made the single failing call for each failure kind (5 ErrorKinds, explicit WriteZero, Ok(0)); the faulted builder call must return Err(Io) of that kind, earlier calls Ok, no panic, and success only if the sink holds the reference bytes and was flushed after the last write (the fault-free run of every sequence exercises that clause).",
    note="Trusted: the fault-injecting sink; behaviour of later calls on a builder that already failed is not part of the statement.", ref="5/C11"),
  "C12": dict(level="exploration", tech="proptest against an independent minimal-DFA construction (hash-consed trie) under an observed no-eviction premise; corpus sharing ratio",
-   text="For builds in which the eviction hook counted zero, sets must be isomorphic to the independently computed minimal acyclic DFA and maps must contain no two nodes with the same signature; for every build emitted nodes <= trie nodes; on the shipped corpora realised sharing must exceed one half of the achievable; extra shapes: cross products (equivalent wide nodes), shared suffixes of 64..300 bytes, > 1 MiB files with few distinct nodes, large sets/maps under a roomy geometry.",
-   note="Trusted: the harness trie/min-DFA code, the eviction hook; transducer-minimality (output placement) not claimed.", ref="5/C12"),
+   text="For builds in which the eviction hook counted zero - or in which, by counting, no cache row can have had to evict (no more distinct nodes below the root than cells in one row) - sets must be isomorphic to the independently computed minimal acyclic DFA and maps must contain no two nodes with the same signature; for every build emitted nodes <= trie nodes; on the shipped corpora realised sharing must exceed one half of the achievable; extra shapes: cross products (equivalent wide nodes), shared suffixes of 64..300 bytes, > 1 MiB files with few distinct nodes, large sets/maps under a roomy geometry, every subset of a 10-key family with at most two distinct nodes below the root under two-cell rows (1..10000 rows), rows of 48..400 cells for small inputs, and 3000-key corpus prefixes under one row wider than their node count (exactly minimal).",
+   note="Trusted: the harness trie/min-DFA code; the eviction hook only where the counting premise does not apply; transducer-minimality (output placement) not claimed.", ref="5/C12"),
  "C13": dict(level="exploration", tech="metamorphic heap measurement with a counting global allocator in single-threaded probe children (N vs N/2)",
-   text="Key sequences with bounded fan-out and key length and unboundedly many distinct nodes are streamed to a discarding sink in a child process with a counting allocator; live heap at N/2 and peak up to the end of finish() must agree within 10% + 128 KiB (10% + 8 KiB for caches of <= 256 cells, where slow leaks show) for 21 configurations: fan-outs 2..40, key lengths 12..250, prefix-pair keys, increasing/hashed/decreasing values, three geometries, and discarding sinks that take at most 1/3/4/8 bytes per call with every 7th call interrupted (what the sink has not taken must not pile up).",
+   text="Key sequences with bounded fan-out and key length and unboundedly many distinct nodes are streamed to a discarding sink in a child process with a counting allocator; live heap at N/2 and peak up to the end of finish() must agree within 10% + 128 KiB (10% + 8 KiB for caches of <= 256 cells, where slow leaks show) for 21 configurations: fan-outs 2..40, key lengths 12..250, prefix-pair keys, increasing/hashed/decreasing values, three geometries, discarding sinks that take at most 1/3/4/8 bytes per call with every 7th call interrupted (what the sink has not taken must not pile up); the number of live heap blocks may rise by at most 64 (caches of <= 256 cells) / 1024 after N/2 (<= 8 on the pinned tree), which sees slow leaks of small blocks.",
    note="Asymptotic claim checked at finitely many N (4e5 quick, up to 1e7 thorough); growth below 5% per doubling would pass.", ref="5/C13"),
  "C14": dict(level="exploration", tech="metamorphic heap measurement of traversals with a counting allocator (small N vs large N); zero-allocation assertion for open/get",
-   text="Peak extra heap during stream/range/search traversals and k-way set operations is measured at two FST sizes in probe children and must not grow with N; operations: stream, range, search with Subsequence / StartsWith / DFAs with and without dead states / Levenshtein / regex DFA, search_with_state, the four set operations for k in {2,3,8} and a union of range and search streams; Fst::new / Map::new / Set::new on borrowed, Cow and mapped bytes, get, contains_key, contains and len (also on an FST with fan-outs 256/24/12) must perform zero allocations; Map/Set streams (stream, keys, values, range, search, search_with_state), their OpBuilders and the predicates are measured like the raw ones.",
+   text="Peak extra heap and the number of allocations during stream/range/search traversals and k-way set operations are measured at two FST sizes in probe children and must not grow with N; operations: stream, range, search with Subsequence / StartsWith / DFAs with and without dead states / Levenshtein / regex DFA, search_with_state, the four set operations for k in {2,3,8} and a union of range and search streams; Fst::new / Map::new / Set::new on borrowed, Cow and mapped bytes, get, contains_key, contains and len (also on an FST with fan-outs 256/24/12) must perform zero allocations; Map/Set streams (stream, keys, values, range, search, search_with_state), their OpBuilders and the predicates are measured like the raw ones.",
    note="Finitely many N; generous multiplicative + additive tolerance calibrated on the pinned tree.", ref="5/C14"),
  "C15": dict(level="exploration", tech="differential byte-equality across construction entry points, threads and child processes",
-   text="The same (type, sequence) is built through every entry point incl. extend_stream of unions of part-sets, memory vs Vec vs scripted sinks, with different buffer capacities, with the builder inspected between inserts, from iterators without size hint, on fresh threads, repeated in-process, in 16 threads and in child processes (one of them refused every allocation >= 256 KiB: it may die but not produce other bytes); one sequence exceeds 10^5 keys; all outputs must be byte-identical.",
+   text="The same (type, sequence) is built through every entry point incl. extend_stream of unions of part-sets, memory vs Vec vs scripted sinks, with different buffer capacities, with the builder inspected between inserts, from iterators without size hint, on fresh threads, repeated in-process, in 16 threads and in child processes (one of them refused every allocation >= 256 KiB: it may die but not produce other bytes); one sequence exceeds 10^5 keys; all outputs must be byte-identical - also when the sequence is built again on the same thread right after builds that died of an I/O error at each write call.",
    note="Other platforms/endianness out of reach.", ref="5/C15"),
  "C16": dict(level="exploration", tech="exhaustive + proptest inverse-of-model oracle on monotone maps",
    text="Maps with strictly increasing values (all subsets of the 15-key universe x gap patterns; random shapes) are queried with every stored value, +/-1, 0, u64::MAX and random values; get_key/get_key_into (on a junk-prefilled buffer) must equal the model inverse; maps of up to 4000 keys with 256-way nodes and values above 2^63 included.",
@@ -69,7 +69,7 @@ P = {
    text="The fst binary (hooks on: seeded delays at channel points, batch trace) is run on generated line/CSV multisets over batch sizes, fd limits, thread counts, merge modes and schedule seeds; output must exist, verify, equal the model fold and be byte-identical across configurations, and equal a sorted build when keys are unique; inputs include CRLF files, files without final newline, empty files anywhere in the list, one input on stdin, keys with NUL / control / CR bytes and long shared prefixes, --force over an existing longer output, values beyond 2^32 and up to ~180 rows (hundreds of batches, several generations); a run that does not finish within 45 seconds is reported as a hang.",
    note="Interleavings are perturbed, not enumerated; a bug needing one specific interleaving may be missed.", ref="5/C19"),
  "C20": dict(level="exploration", tech="exhaustive header/footer grid + proptest random/truncated/mutated inputs under catch_unwind + libFuzzer/ASan (thorough); auxiliary -F unsafe_code lint",
-   text="Every length 0..64 x boundary version/root/len values x filler, random byte strings, every truncation and single-byte mutation of valid FSTs are opened through Fst/Map/Set::new and, when they open, the metadata accessors and verify() are called, all under catch_unwind; inputs of 64 KiB..16 MiB with plausible headers/footers included; the library is additionally compiled with -F unsafe_code as the property prescribes.",
+   text="Every length 0..64 x boundary version/root/len values x filler, random byte strings, every truncation and single-byte mutation of valid FSTs are opened through Fst/Map/Set::new (and swapped in through Fst/Map/Set::map_data) and, when they open, the metadata accessors and verify() are called, all under catch_unwind; inputs of 64 KiB..16 MiB with plausible headers/footers included; the library is additionally compiled with -F unsafe_code as the property prescribes.",
    note="root()/get/stream on malformed-but-openable input may panic by documentation and are not asserted.", ref="5/C20"),
 }
 
